@@ -1046,6 +1046,8 @@ struct SchedOutcome {
     fin: Model<u64>,
     invariant: Result<(), String>,
     reload: Result<Model<u64>, String>,
+    concurrent_reads: u64,
+    read_phantoms: Vec<String>,
 }
 
 fn run_scripts(
@@ -1064,9 +1066,76 @@ fn run_scripts(
     let recs: Arc<std::sync::Mutex<Vec<Rec>>> = Arc::new(std::sync::Mutex::new(vec![]));
     let mut trace = vec![];
     let mut end = SchedEnd::AllFinished;
+    // stress mode: one more thread reads (point, key listing, both scan directions) while the
+    // writers run. Judged with the only schedule-independent read oracle: no phantom - every
+    // (key, pk) a read delivers was inserted by somebody (prefill or some script).
+    let possible: BTreeSet<(u64, u64)> = prefill
+        .iter()
+        .map(|(pk, k)| (*k, *pk))
+        .chain(scripts.iter().flatten().flat_map(|op| match op {
+            Op::Insert(pk, k) => vec![(*k, *pk)],
+            Op::InsertArray(pk, ks) => ks.iter().map(|k| (*k, *pk)).collect(),
+            Op::BatchUpdate(pk, _, add) => add.iter().map(|k| (*k, *pk)).collect(),
+            _ => vec![],
+        }))
+        .collect();
+    let writers_done = Arc::new(AtomicU64::new(0));
+    let reader_out: Arc<std::sync::Mutex<(u64, Vec<String>)>> = Arc::new(std::sync::Mutex::new((0, vec![])));
     std::thread::scope(|s| {
+        if stress_seed.is_some() {
+            let (idx, writers_done, reader_out, possible, n_writers) = (idx.clone(), writers_done.clone(), reader_out.clone(), &possible, scripts.len() as u64);
+            s.spawn(move || {
+                let mut reads = 0u64;
+                let mut phantoms = vec![];
+                let mut round = 0u64;
+                loop {
+                    let finished = writers_done.load(Ordering::SeqCst) >= n_writers;
+                    let mut seen: Vec<(u64, u64)> = vec![];
+                    match round % 4 {
+                        0 => {
+                            for k in idx.keys(None, None) {
+                                if let Some(ids) = idx.query_with(&k, |ids| Some(ids.clone())) {
+                                    seen.extend(ids.into_iter().map(|pk| (k, pk)));
+                                }
+                            }
+                        }
+                        1 => {
+                            let _ = idx.range_query_with(RangeQuery::Ge(0u64), |k: &u64, ids: &Vec<u64>| {
+                                seen.extend(ids.iter().map(|pk| (*k, *pk)));
+                                (true, Vec::<()>::new())
+                            });
+                        }
+                        2 => {
+                            let _ = idx.range_query_rev_with(RangeQuery::Le(u64::MAX), |k: &u64, ids: &Vec<u64>| {
+                                seen.extend(ids.iter().map(|pk| (*k, *pk)));
+                                (true, Vec::<()>::new())
+                            });
+                        }
+                        _ => {
+                            for k in [1u64, 2, 3, 4, 5, 6, 10_000, 20_000] {
+                                if let Some(ids) = idx.query_with(&k, |ids| Some(ids.clone())) {
+                                    seen.extend(ids.into_iter().map(|pk| (k, pk)));
+                                }
+                            }
+                        }
+                    }
+                    reads += 1;
+                    for kp in seen {
+                        if !possible.contains(&kp) && phantoms.len() < 3 {
+                            phantoms.push(format!("read kind {} delivered key {} -> pk {} which no operation ever inserted", round % 4, kp.0, kp.1));
+                        }
+                    }
+                    round += 1;
+                    if finished {
+                        break;
+                    }
+                    std::thread::yield_now();
+                }
+                *reader_out.lock().unwrap() = (reads, phantoms);
+            });
+        }
         for (t, script) in scripts.iter().enumerate() {
-            let (idx, clock, sched, recs) = (idx.clone(), clock.clone(), sched.clone(), recs.clone());
+            let (idx, clock, sched, recs, writers_done) = (idx.clone(), clock.clone(), sched.clone(), recs.clone(), writers_done.clone());
             s.spawn(move || {
                 if let Some(seed) = stress_seed {
                     vcore::sched::enable_stress(seed ^ (t as u64) << 8, 2);
@@ -1084,6 +1153,7 @@ fn run_scripts(
                 } else {
                     sched.finish(t);
                 }
+                writers_done.fetch_add(1, Ordering::SeqCst);
             });
         }
         if stress_seed.is_none() {
@@ -1111,7 +1181,8 @@ fn run_scripts(
         }
     };
     let recs = recs.lock().unwrap().clone();
-    SchedOutcome { recs, trace, end, fin, invariant, reload }
+    let (concurrent_reads, read_phantoms) = reader_out.lock().unwrap().clone();
+    SchedOutcome { recs, trace, end, fin, invariant, reload, concurrent_reads, read_phantoms }
 }
 
 fn judge_concurrent(
@@ -1136,6 +1207,10 @@ fn judge_concurrent(
     }
     if let Err(e) = &out.invariant {
         st.violation("C10/concurrent/invariant", json!({"error": e, "context": ctx()}));
+    }
+    st.add("concurrent_reads_during_stress", out.concurrent_reads);
+    if !out.read_phantoms.is_empty() {
+        st.violation("C10/concurrent/read_delivered_a_pair_nobody_inserted", json!({"phantoms": out.read_phantoms, "context": ctx()}));
     }
     match &out.reload {
         Err(e) => st.violation("C10/concurrent/flush_reload_error", json!({"error": e, "context": ctx()})),
@@ -1286,6 +1361,7 @@ fn main() {
     run.floor("oracle_range_early_stop", 500);
     run.floor("ops_rejected_unique", 5);
     run.floor("schedules_run", 50);
+    run.floor("concurrent_reads_during_stress", 100);
     run.floor("linearizability_checks", 100);
     run.floor_set("distinct_hook_interleavings", 20);
     for tag in [
